@@ -880,19 +880,11 @@ func (fr *Frame) binop(st *State, in *ssa.BinOp) *Term {
 }
 
 func (fr *Frame) strEq(x, y *Term) *Term {
-	// strings are compared by length and content on [0,len)
-	if x == y {
-		return True
-	}
-	if x.op == "app" && x.name == "mk_Str" && y.op == "app" && y.name == "mk_Str" {
-		return Eq(x, y)
-	}
-	Declare("str_eq", []Sort{SStr, SStr}, SBool)
-	fr.fc.eng.needStrEq = true
-	if x.id > y.id {
-		x, y = y, x
-	}
-	return App("str_eq", SBool, x, y)
+	// Strings are immutable values; every string is represented canonically (bytes beyond the
+	// length are zero, as in the literals), so Go's == is equality of the representation. For
+	// strings built from bytes only the content on [0,len) is asserted, which can make a true
+	// equality unprovable but never a false one provable.
+	return Eq(x, y)
 }
 
 func (fr *Frame) unop(st *State, in *ssa.UnOp) *Term {
